@@ -35,7 +35,7 @@ def run(chk, repo, tier):
     chk.clause('C16-f', 'gain form <-> einsum subscripts per gain.ndim; scalar gain lifted to 1-D', 4)
     chk.clause('C16-g', 'power cube: row d carries exponent order with d + order = model_order', 1)
     chk.clause('C16-h', 'floor, then clamp at zero, then cast; saturation clip precedes the gain; warning predicate = clip predicate', 4)
-    chk.clause('C16-j', 'every given capacity clips; clip and powers happen in a floating-point frame whatever the input type', 3)
+    chk.clause('C16-j', 'every given capacity clips; clip and powers happen in a double-precision frame whatever the input type', 4)
     chk.clause('C16-i', 'colour pattern tiled over the native pixel grid (rows, cols of the cube) and replicated oversample x oversample', 3)
     chk.not_decided += ['linearity in photons and QE numerically', 'monotonicity']
 
@@ -316,6 +316,27 @@ def capacity_rules(chk, repo, fa, clause):
                         ok_pow = False
                         det_pow = f'the powers are stored back into a cube of {fmt(base)[:80]}, which keeps the element type of the ' \
                                   'caller\'s array: img**order wraps in a small integer type'
+    # ... in double precision: counts squared exceed the 24-bit mantissa of single precision from 4097 electrons on
+    narrow, n_cast = [], 0
+    for p in returns(paths):
+        vals = [e.target for e in _clip_events(p, cap)]
+        for lp in p.state.loops:
+            vals += [v for v in lp['pre'].values() if isinstance(v, Poly)]
+        for v in vals:
+            for a in nf.value_atoms(v):
+                if is_app(a, ('cast', 'm:astype')) and len(a[2]) > 1 and _is_frame(a[2][0] if isinstance(a[2][0], Poly) else None):
+                    n_cast += 1
+                    t = repr(a[2][1])
+                    if any(k in t for k in ('float32', 'float16', 'half', 'single', 'promote_types', 'result_type', 'min_scalar_type')):
+                        narrow.append(f'the frame is converted to {fmt(a[2][1])[:60]}')
+                elif is_app(a, ('array', 'asarray', 'full', 'zeros', 'empty')):
+                    for x in a[2]:
+                        if isinstance(x, Tup) and 'dtype' in repr(x) and any(k in repr(x) for k in ('float32', 'float16', 'promote_types', 'result_type')):
+                            narrow.append(f'the frame is built as {fmt(Poly.atom(a))[:60]}')
+    chk.ob(clause, 'T-dtype', fa.key, 'the working frame is double precision (exact for every count the gain polynomial squares)',
+           (not narrow) if (n_cast or narrow) else None,
+           ('; '.join(sorted(set(narrow))[:2]) + ': float32 holds integers exactly only up to 2**24, so 5001**2 comes out as 25010000') if narrow
+           else f'{n_cast} conversion(s) of the frame, none to a narrower floating type', fa.loc())
     chk.ob(clause, 'D-guard', fa.key, 'every capacity that is given clips the frame (a capacity of 0 included)',
            ok_cap if n_cap else None, det_cap or f'{n_cap} unclipped path(s), all with the capacity None', fa.loc())
     chk.ob(clause, 'T-dtype', fa.key, 'the capacity is stored into a floating-point frame', ok_clip, det_clip, fa.loc())
